@@ -179,6 +179,20 @@ pub fn c01_key(f: &Finding, p: &Program, _o: &Outcome) -> Option<String> {
             None
         }
         Kind::Arity => {
+            // an exclusion over a relation known only through its wildcard, then a second exclusion (written, or the
+            // implicit one of `group`): the second forgets the first (C16 records the RQ side of it), the statement
+            // reads `* EXCLUDE (b)` and the column excluded first is back
+            {
+                let first_ex = sp.iter().position(|s| matches!(s, Step::SelectExcept(_)));
+                if let Some(k) = first_ex {
+                    let later = sp[k + 1..].iter().any(|s| matches!(s, Step::SelectExcept(_) | Step::Group { .. }));
+                    let got_n = parse_names(&f.got).len();
+                    let exp_n = serde_json::from_str::<Vec<Option<String>>>(&f.expected).map(|v| v.len()).unwrap_or(0);
+                    if later && got_n > exp_n && (f.sql.contains("* EXCLUDE (") || f.sql.contains("* EXCEPT (")) {
+                        return Some("second-exclusion-over-open-relation-forgets-the-first".into());
+                    }
+                }
+            }
             // a grouped aggregate that takes the name of its *computed* key (`select {x = a + 1, b} | group {x}
             // (aggregate {x = sum b})`): the projection keeps one item per alias, the aggregate is dropped
             {
@@ -238,7 +252,7 @@ pub fn c01_key(f: &Finding, p: &Program, _o: &Outcome) -> Option<String> {
                 let fr = main_frames(p);
                 let unnamed_then_group_take = fr.iter().enumerate().any(|(k, (_, s))| {
                     matches!(s, Step::Select(items) if items.iter().any(|it| it.alias.is_none() && !matches!(it.e, E::Col(_))))
-                        && fr[k + 1..].iter().any(|(_, s2)| matches!(s2, Step::Group { inner, .. } if inner.iter().any(|x| matches!(x, Step::Take(..)))))
+                        && fr[k + 1..].iter().any(|(_, s2)| matches!(s2, Step::Group { inner, .. } if !inner.iter().any(|x| matches!(x, Step::Aggregate(_)))))
                 });
                 if unnamed_then_group_take {
                     return Some("unnamed-column-dropped-by-group-take".into());
@@ -372,12 +386,46 @@ pub fn names_key(f: &Finding, p: &Program, _o: &Outcome) -> Option<String> {
     let exp: Vec<Option<String>> = serde_json::from_str(&f.expected).unwrap_or_default();
     // dialects with `* EXCLUDE`: an exclusion over two joined relations of which one is only known through its
     // wildcard is written `SELECT u.* EXCLUDE (…), t.b` — the wildcard first, whatever the frame order
-    if f.sql.contains(".* EXCLUDE (") && exp.iter().all(|e| e.is_some()) {
+    // the branches of a UNION ALL written with different numbers of columns (recorded for the executed dialects as
+    // a statement the engine rejects): the static column list of such a statement is that of its first branch
+    if let Some((top, bottom)) = f.sql.split_once(" UNION ALL ") {
+        let items = |sel: &str| -> usize {
+            let body = sel.rsplit("SELECT ").next().unwrap_or("");
+            let body = body.split(" FROM ").next().unwrap_or("");
+            let mut depth = 0i32;
+            let mut n = 1;
+            for c in body.chars() {
+                match c {
+                    '(' => depth += 1,
+                    ')' => depth -= 1,
+                    ',' if depth == 0 => n += 1,
+                    _ => {}
+                }
+            }
+            n
+        };
+        let top_sel = top.rsplit_once("SELECT ").map(|x| format!("SELECT {}", x.1)).unwrap_or_default();
+        let bottom_sel = bottom.split(" UNION ALL ").next().unwrap_or("");
+        if !top_sel.contains('*') && !bottom_sel.contains('*') && items(&top_sel) != items(bottom_sel) {
+            return Some("append-branches-projected-differently".into());
+        }
+    }
+    // (static column lists) the frame's values in the wildcard's column order, see the C01 finding of the same name
+    if shadowing_alias(p) && f.sql.contains('*') && has(&spine(p), |s| matches!(s, Step::Group { inner, .. } if !inner.iter().any(|x| matches!(x, Step::Aggregate(_) | Step::Take(..))))) {
         let mut a: Vec<String> = got.clone();
         let mut b: Vec<String> = exp.iter().map(|e| e.clone().unwrap_or_default()).collect();
         a.sort();
         b.sort();
-        let star_first = f.sql.split("SELECT ").nth(1).map(|x| x.split(',').next().unwrap_or("").contains(".* EXCLUDE (")).unwrap_or(false);
+        if a == b || got.len() == exp.len() {
+            return Some("group-key-not-first-behind-wildcard-with-shadowing-alias".into());
+        }
+    }
+    if (f.sql.contains(".* EXCLUDE (") || f.sql.contains(".* EXCEPT (")) && exp.iter().all(|e| e.is_some()) {
+        let mut a: Vec<String> = got.clone();
+        let mut b: Vec<String> = exp.iter().map(|e| e.clone().unwrap_or_default()).collect();
+        a.sort();
+        b.sort();
+        let star_first = f.sql.split("SELECT ").nth(1).map(|x| { let first = x.split(',').next().unwrap_or(""); first.contains(".* EXCLUDE (") || first.contains(".* EXCEPT (") }).unwrap_or(false);
         if a == b && star_first {
             return Some("excluded-wildcard-written-in-front-of-earlier-columns".into());
         }
@@ -408,7 +456,7 @@ pub fn names_key(f: &Finding, p: &Program, _o: &Outcome) -> Option<String> {
         let fr = main_frames(p);
         let unnamed_then_group_take = fr.iter().enumerate().any(|(k, (_, s))| {
             matches!(s, Step::Select(items) if items.iter().any(|it| it.alias.is_none() && !matches!(it.e, E::Col(_))))
-                && fr[k + 1..].iter().any(|(_, s2)| matches!(s2, Step::Group { inner, .. } if inner.iter().any(|x| matches!(x, Step::Take(..)))))
+                && fr[k + 1..].iter().any(|(_, s2)| matches!(s2, Step::Group { inner, .. } if !inner.iter().any(|x| matches!(x, Step::Aggregate(_)))))
         });
         if unnamed_then_group_take && f.sql.contains(".*") {
             return Some("unnamed-column-dropped-by-group-take".into());
